@@ -1765,6 +1765,8 @@ func generate(prop, tier string, seed uint64) []string {
 		rep(12, x.collisionPairOps)
 		x.zeroToleranceBlock()
 		x.emit("wlgen words=nil L=3 sep=char:_ cap=_ tape=1.2.3")
+		x.emit("wlgen words=@zero L=3 sep=char:_ cap=_ tape=1.2.3")
+		x.emit("wlgen words=@zero L=2 sep=preset:d1 cap=%s tape=1.2.3", encCps("random"))
 		x.emit("chargen r=0/0/0/0/_/-/_ tape=1.2.3")
 	case "C14":
 		// the sequential behaviour of what the racer calls concurrently
